@@ -12,7 +12,9 @@
 //!   cubicline CubicBezierSegment::{line_intersections_t, line_intersections}
 //!   cubicseg  CubicBezierSegment::line_segment_intersections_t
 //!   tri       Triangle::{contains_point, intersects, intersects_line_segment}
-//!   cubiccubic CubicBezierSegment::cubic_intersections_t  (oracle only: not modelled)
+//!   cubiccubic CubicBezierSegment::{cubic_intersections_t (both argument orders), cubic_intersections}
+//!             – random / planted pairs + a structured stream (point-like, line-like, overlapping,
+//!               loops, tangencies, shared endpoints, 9 crossings, magnitudes, closed, near-coincident)
 //!
 //! ORCL is the property evaluated on lyon's own outputs:
 //!   * segments: on integer inputs an independent exact (i128) straddle decision of "cross at a
@@ -1204,7 +1206,7 @@ fn tri_case<S: Fl>(ctx: &mut Ctx) {
 }
 
 // ---------------------------------------------------------------------------------------------
-// cubic × cubic (oracle only)
+// cubic × cubic
 
 /// brute-force reference: crossings of two 128-segment polylines, as (t, u)
 fn polyline_crossings(a: &[V2], b: &[V2]) -> Vec<(f64, f64)> {
@@ -1238,6 +1240,210 @@ fn polyline_crossings(a: &[V2], b: &[V2]) -> Vec<(f64, f64)> {
     res
 }
 
+/// harness-side classification of the dispatch of `cubic_bezier_intersections_t` (for the TAG
+/// line only): which top-level branch the pair takes
+fn cc_branch<S: Fl>(a: &CubicBezierSegment<S>, b: &CubicBezierSegment<S>) -> &'static str {
+    let is_pt = |c: &CubicBezierSegment<S>| {
+        let e2 = S::EPSILON * S::EPSILON;
+        (c.from - c.to).square_length() <= e2 && (c.from - c.ctrl1).square_length() <= e2 && (c.to - c.ctrl2).square_length() <= e2
+    };
+    if !a.fast_bounding_box().intersects(&b.fast_bounding_box()) {
+        return "br-boxes-apart";
+    }
+    if a == b || (a.from == b.to && a.ctrl1 == b.ctrl2 && a.ctrl2 == b.ctrl1 && a.to == b.from) {
+        return "br-same-curve";
+    }
+    match (is_pt(a), is_pt(b)) {
+        (true, true) => return "br-point-point",
+        (true, false) | (false, true) => return "br-point-curve",
+        _ => {}
+    }
+    match (a.is_linear(S::EPSILON), b.is_linear(S::EPSILON)) {
+        (true, true) => "br-line-line",
+        (true, false) | (false, true) => "br-line-curve",
+        _ => "br-clip",
+    }
+}
+
+fn cc_mk<S: Fl>(c: [V2; 4]) -> CubicBezierSegment<S> {
+    let p = |v: V2| point(S::of(v.0), S::of(v.1));
+    CubicBezierSegment { from: p(c[0]), ctrl1: p(c[1]), ctrl2: p(c[2]), to: p(c[3]) }
+}
+
+fn cc_ctrl<S: Fl>(c: &CubicBezierSegment<S>) -> [V2; 4] {
+    [p64(c.from), p64(c.ctrl1), p64(c.ctrl2), p64(c.to)]
+}
+
+/// lyon call + oracle for one pair of cubics
+fn cubiccubic_body<S: Fl>(a: CubicBezierSegment<S>, b: CubicBezierSegment<S>) -> CaseOut {
+    let mut out = Out::new();
+    let mut orc = Oracle::new();
+    let ca = cc_ctrl(&a);
+    let cb = cc_ctrl(&b);
+    let m = ca.iter().chain(cb.iter()).fold(0.0f64, |m, p| m.max(p.0.abs()).max(p.1.abs())).max(1e-30);
+    // `epsilon_for_point` casts a coordinate magnitude to i32 (f32) / i64 (f64) and unwraps: inputs
+    // with a coordinate beyond that range are run guarded, a panic is the modelled outcome `panic`
+    let int_limit = if S::BITS == 32 { 2147483648.0 } else { 9223372036854775808.0 };
+    let beyond_int = m >= 0.99 * int_limit;
+    let run = || (a.cubic_intersections_t(&b), b.cubic_intersections_t(&a), a.cubic_intersections(&b));
+    let (r, rv, pts) = if beyond_int {
+        match vh::guarded(run) {
+            Some(x) => x,
+            None => {
+                out.t("panic");
+                orc.check(false, "cubic.cubic_intersections_t/no-panic", "coord-beyond-int-range", || format!("panic in cubic_intersections_t, largest |coordinate| {:e}", m));
+                return CaseOut { imp: out, orcl: orc.verdict };
+            }
+        }
+    } else {
+        run()
+    };
+    put_pairs(&mut out, &r);
+    // the same query with the curves swapped, and the point version (sorted, de-duplicated)
+    out.t("rev");
+    put_pairs(&mut out, &rv);
+    out.t("pts").u(pts.len() as u64);
+    for p in &pts {
+        out.p(*p);
+    }
+    if !m.is_finite() || m > 1e15 {
+        orc.skip("magnitude");
+        return CaseOut { imp: out, orcl: orc.verdict };
+    }
+    // relative envelope + an absolute floor of 4 x S::EPSILON (lyon's own point / linearity tolerance,
+    // which is absolute: it dominates for coordinates below 0.2 in f32)
+    let tol = if S::BITS == 32 { 2e-3 } else { 1e-6 } * m + 4.0 * S::EPSILON.f();
+    // failures are collected and the `generic` ones registered first, so that a listed witness
+    // class cannot mask a different violation in the same case
+    let mut fails: Vec<(&'static str, &'static str, String)> = Vec::new();
+    let branch = cc_branch(&a, &b);
+    let e2 = S::EPSILON.f() * S::EPSILON.f();
+    let is_pt = |c: &[V2; 4]| {
+        let d2 = |p: V2, q: V2| (p.0 - q.0) * (p.0 - q.0) + (p.1 - q.1) * (p.1 - q.1);
+        d2(c[0], c[3]) <= e2 && d2(c[0], c[1]) <= e2 && d2(c[3], c[2]) <= e2
+    };
+    let (a_pt, b_pt) = (is_pt(&ca), is_pt(&cb));
+    let mut skip_root = false;
+    for (t, u) in &r {
+        let (t, u) = (t.f(), u.f());
+        if !((0.0..=1.0).contains(&t) && (0.0..=1.0).contains(&u)) {
+            fails.push(("cubic.cubic_intersections_t/range", "generic", format!("t={} u={}", t, u)));
+        }
+        let (pa, pb) = (bez(&ca, t), bez(&cb, u));
+        let e = norm(sub(pa, pb));
+        if !(e <= tol) {
+            // the line x curve branch goes through the cubic root finder twice (curve x baseline
+            // line, then the line-like curve's own coordinate polynomial): same envelope and same
+            // "no demand on nearly quadratic cubics" rule as the cubic x line oracle
+            if branch == "br-line-curve" {
+                let a_lin = a.is_linear(S::EPSILON);
+                let (lin, cur, lc, cc, tl) = if a_lin { (&a, &b, &ca, &cb, t) } else { (&b, &a, &cb, &ca, u) };
+                let base = lin.baseline().to_line();
+                let (c1, r1) = cubicline_class(cur, &base);
+                let vertical = (lin.from.y - lin.to.y).abs() >= (lin.from.x - lin.to.x).abs();
+                let co = |p0: f64, p1: f64, p2: f64, p3: f64, v: f64| [-p0 + 3.0 * p1 - 3.0 * p2 + p3, 3.0 * p0 - 6.0 * p1 + 3.0 * p2, -3.0 * p0 + 3.0 * p1, p0 - v];
+                let pl = bez(lc, tl);
+                let (c2, r2) = if vertical { cubic_class(co(lc[0].1, lc[1].1, lc[2].1, lc[3].1, pl.1), S::BITS) } else { cubic_class(co(lc[0].0, lc[1].0, lc[2].0, lc[3].0, pl.0), S::BITS) };
+                if c1 == "near-degenerate" || c2 == "near-degenerate" {
+                    skip_root = true;
+                    continue;
+                }
+                let envelope = tol + curve_tol::<S>(cc, p64(base.point), r1) + curve_tol::<S>(lc, p64(base.point), r2);
+                if e <= envelope {
+                    continue;
+                }
+            }
+            // witness class: acceptance tests that compare a SQUARED distance with an epsilon meant
+            // as a distance: `point_curve_intersections` with `S::EPSILON` in the point x curve
+            // branch (anything within sqrt(EPSILON) = 1e-2 (f32) / 1e-4 (f64) is reported) and
+            // `add_point_curve_intersection` with `epsilon_for_point` in the clipping branch
+            // (f32: 0.001 below 10, 0.01 below 100, ... i.e. distances up to 0.0316, 0.1, ...)
+            let pm = pa.0.abs().max(pa.1.abs()).max(pb.0.abs()).max(pb.1.abs());
+            let efp = if S::BITS == 32 {
+                if pm < 10.0 { 0.001 } else if pm < 100.0 { 0.01 } else if pm < 1e3 { 0.1 } else if pm < 1e4 { 0.25 } else if pm < 1e6 { 0.5 } else { 1.0 }
+            } else if pm < 1e5 { 1e-8 } else if pm < 1e8 { 1e-5 } else if pm < 1e10 { 1e-3 } else { 0.1 };
+            let class = if branch == "br-point-curve" && e <= 1.05 * S::EPSILON.f().sqrt() + 2.0 * S::EPSILON.f() {
+                "point-curve-sq-epsilon"
+            } else if branch == "br-clip" && e <= 1.5 * f64::sqrt(efp) {
+                // (1.5: the test is made on the START point of the degenerate sub-curve, the
+                // parameter reported is the MIDDLE of its domain, and the de-duplication may keep
+                // either of two such pairs)
+                "point-curve-sq-epsilon"
+            } else {
+                "generic"
+            };
+            fails.push(("cubic.cubic_intersections_t/resample-both", class, format!("t={} u={} distance {:e} tol {:e}", t, u, e, tol)));
+        }
+    }
+    // completeness at transversal, well separated crossings (reference: polylines)
+    let refx = polyline_crossings(&ca, &cb);
+    let (la, lb) = (polygon_len(&ca), polygon_len(&cb));
+    let deriv = |c: &[V2], t: f64| {
+        let h = 1e-5;
+        let (p, q) = (bez(c, t + h), bez(c, t - h));
+        ((p.0 - q.0) / (2.0 * h), (p.1 - q.1) / (2.0 * h))
+    };
+    for (k, &(t, u)) in refx.iter().enumerate() {
+        let sep = refx.iter().enumerate().filter(|(j, _)| *j != k).map(|(_, (t2, u2))| (t2 - t).abs().min((u2 - u).abs())).fold(f64::INFINITY, f64::min);
+        let (da, db) = (deriv(&ca, t), deriv(&cb, u));
+        let transversal = cross(da, db).abs() >= 0.3 * norm(da) * norm(db) && norm(da) >= 0.2 * la && norm(db) >= 0.2 * lb;
+        // no demand when the two curves are the same curve (equal or reversed: lyon's documented
+        // early exit — the self-crossings of a loop are not "intersections of two curves"), nor on
+        // curves shorter than 100 x S::EPSILON (lyon treats anything within EPSILON of a point / a
+        // line as that point / line: their parameters are not determined within 2e-2)
+        let same_curve = branch == "br-same-curve";
+        let tiny = la < 100.0 * S::EPSILON.f() || lb < 100.0 * S::EPSILON.f();
+        if t > 0.1 && t < 0.9 && u > 0.1 && u < 0.9 && sep > 0.15 && transversal && refx.len() <= 4 && !same_curve && !tiny {
+            // the parameter on a point-like curve (lyon's own `is_a_point(EPSILON)`) is not
+            // determined within 2e-2: only the other curve's parameter is demanded there
+            let near = |t2: f64, u2: f64| (a_pt || (t2 - t).abs() <= 2e-2) && (b_pt || (u2 - u).abs() <= 2e-2);
+            let hit = r.iter().any(|(t2, u2)| near(t2.f(), u2.f()));
+            // witness class: the crossing is missed by this query but reported by a variant
+            // of it – the two curves in the other order, or the same control points in the
+            // other precision: an unstable miss of the clipper (a miss by all variants
+            // stays `generic`)
+            let class = if !hit {
+                // variants of the query: the other precision, in both argument orders
+                let (other, other_swapped) = if S::BITS == 32 {
+                    let c = |c: &[V2; 4]| CubicBezierSegment { from: point(c[0].0, c[0].1), ctrl1: point(c[1].0, c[1].1), ctrl2: point(c[2].0, c[2].1), to: point(c[3].0, c[3].1) };
+                    (vh::guarded(|| c(&ca).cubic_intersections_t(&c(&cb)).iter().any(|(t2, u2)| near(*t2, *u2))).unwrap_or(false),
+                     vh::guarded(|| c(&cb).cubic_intersections_t(&c(&ca)).iter().any(|(u2, t2)| near(*t2, *u2))).unwrap_or(false))
+                } else {
+                    let c = |c: &[V2; 4]| CubicBezierSegment { from: point(c[0].0 as f32, c[0].1 as f32), ctrl1: point(c[1].0 as f32, c[1].1 as f32), ctrl2: point(c[2].0 as f32, c[2].1 as f32), to: point(c[3].0 as f32, c[3].1 as f32) };
+                    (vh::guarded(|| c(&ca).cubic_intersections_t(&c(&cb)).iter().any(|(t2, u2)| near(*t2 as f64, *u2 as f64))).unwrap_or(false),
+                     vh::guarded(|| c(&cb).cubic_intersections_t(&c(&ca)).iter().any(|(u2, t2)| near(*t2 as f64, *u2 as f64))).unwrap_or(false))
+                };
+                let swapped = rv.iter().any(|(u2, t2)| near(t2.f(), u2.f()));
+                // nearly coincident curves (every control point of B within 1e-3 x polygon length
+                // of the corresponding one of A, in either direction): the clipper spends its
+                // 4096-call budget on the coincident stretches
+                let dmax = |rev: bool| (0..4).map(|i| norm(sub(ca[i], cb[if rev { 3 - i } else { i }]))).fold(0.0f64, f64::max);
+                let coincident = dmax(false).min(dmax(true)) <= 1e-3 * la.max(lb);
+                if coincident {
+                    "near-coincident-budget"
+                } else if other || swapped || other_swapped {
+                    "clipper-unstable-miss"
+                } else {
+                    "generic"
+                }
+            } else {
+                "generic"
+            };
+            if !hit {
+                fails.push(("cubic.cubic_intersections_t/complete", class, format!("transversal crossing near t={:.4} u={:.4} not reported; got {:?}", t, u, r.iter().map(|x| (x.0.f(), x.1.f())).collect::<Vec<_>>())));
+            }
+        }
+    }
+    fails.sort_by_key(|f| if f.1 == "generic" { 0 } else { 1 });
+    if fails.is_empty() && skip_root {
+        orc.skip("near-degenerate-leading-coefficient");
+    }
+    for (clause, class, detail) in fails {
+        orc.check(false, clause, class, || detail);
+    }
+    CaseOut { imp: out, orcl: orc.verdict }
+}
+
 fn cubiccubic_case<S: Fl>(ctx: &mut Ctx) {
     ctx.case(&format!("cubiccubic:{}", S::BITS), |rng| {
         let g = match rng.below(4) {
@@ -1247,7 +1453,6 @@ fn cubiccubic_case<S: Fl>(ctx: &mut Ctx) {
         let a = gen_cubic::<S>(g, rng);
         let mut b = gen_cubic::<S>(g, rng);
         let mut kind = "random";
-        let mut planted = None;
         if rng.chance(2, 3) {
             kind = "planted";
             let lat = g == Gen::Lattice;
@@ -1255,70 +1460,207 @@ fn cubiccubic_case<S: Fl>(ctx: &mut Ctx) {
             let u = if lat { rng.range(2, 6) as f64 / 8.0 } else { rng.uniform(0.15, 0.85) };
             let d = a.sample(S::of(t)) - b.sample(S::of(u));
             b = CubicBezierSegment { from: b.from + d, ctrl1: b.ctrl1 + d, ctrl2: b.ctrl2 + d, to: b.to + d };
-            planted = Some((t, u));
         }
         let mut args = Out::new();
         args.p(a.from).p(a.ctrl1).p(a.ctrl2).p(a.to).p(b.from).p(b.ctrl1).p(b.ctrl2).p(b.to);
-        let tag = format!("cubiccubic {} {} {}", S::BITS, g.name(), kind);
-        (args, tag, move || {
-            let mut out = Out::new();
-            let r = a.cubic_intersections_t(&b);
-            put_pairs(&mut out, &r);
-            let mut orc = Oracle::new();
-            let ca = [p64(a.from), p64(a.ctrl1), p64(a.ctrl2), p64(a.to)];
-            let cb = [p64(b.from), p64(b.ctrl1), p64(b.ctrl2), p64(b.to)];
-            let m = ca.iter().chain(cb.iter()).fold(0.0f64, |m, p| m.max(p.0.abs()).max(p.1.abs())).max(1e-30);
-            let tol = if S::BITS == 32 { 2e-3 } else { 1e-6 } * m;
-            for (t, u) in &r {
-                let (t, u) = (t.f(), u.f());
-                orc.check((0.0..=1.0).contains(&t) && (0.0..=1.0).contains(&u), "cubic.cubic_intersections_t/range", "generic", || format!("t={} u={}", t, u));
-                let e = norm(sub(bez(&ca, t), bez(&cb, u)));
-                orc.check(e <= tol, "cubic.cubic_intersections_t/resample-both", "generic", || format!("t={} u={} distance {:e} tol {:e}", t, u, e, tol));
+        let tag = format!("cubiccubic {} {} {} {}", S::BITS, g.name(), kind, cc_branch(&a, &b));
+        (args, tag, move || cubiccubic_body(a, b))
+    });
+}
+
+/// structured pairs aimed at the branches of the clipper that random pairs do not reach
+fn cubiccubic_special_case<S: Fl>(ctx: &mut Ctx) {
+    ctx.case(&format!("cubiccubic:{}", S::BITS), |rng| {
+        let lat = rng.chance(1, 3);
+        let g = if lat { Gen::Lattice } else { Gen::Uniform };
+        let a0 = gen_cubic::<S>(g, rng);
+        let ca = cc_ctrl(&a0);
+        let eps: f64 = if S::BITS == 32 { 1e-4 } else { 1e-8 };
+        let jit = |rng: &mut Rng, s: f64| (rng.uniform(-s, s), rng.uniform(-s, s));
+        let add = |p: V2, q: V2| (p.0 + q.0, p.1 + q.1);
+        let mul = |p: V2, k: f64| (p.0 * k, p.1 * k);
+        let tpar = |rng: &mut Rng| if lat { rng.range(1, 7) as f64 / 8.0 } else { rng.uniform(0.05, 0.95) };
+        let (mut a, mut b, kind): (CubicBezierSegment<S>, CubicBezierSegment<S>, &'static str) = match rng.below(14) {
+            0 => {
+                // point-like curve on / near / off the other curve
+                let t = match rng.below(5) { 0 => 0.0, 1 => 1.0, _ => tpar(rng) };
+                let p = bez(&ca, t);
+                let off = match rng.below(4) { 0 => 0.0, 1 => eps * 0.5, 2 => eps.sqrt() * rng.uniform(0.3, 3.0), _ => rng.uniform(0.0, 2.0) };
+                let ang = rng.uniform(0.0, 6.283);
+                let p = add(p, (off * ang.cos(), off * ang.sin()));
+                let s = match rng.below(3) { 0 => 0.0, 1 => eps * 0.3, _ => eps * 2.0 };
+                (a0, cc_mk([add(p, jit(rng, s)), add(p, jit(rng, s)), add(p, jit(rng, s)), add(p, jit(rng, s))]), "point-like")
             }
-            // completeness at transversal, well separated crossings (reference: polylines)
-            let refx = polyline_crossings(&ca, &cb);
-            let (la, lb) = (polygon_len(&ca), polygon_len(&cb));
-            let deriv = |c: &[V2], t: f64| {
-                let h = 1e-5;
-                let (p, q) = (bez(c, t + h), bez(c, t - h));
-                ((p.0 - q.0) / (2.0 * h), (p.1 - q.1) / (2.0 * h))
-            };
-            let mut demanded = 0;
-            for (k, &(t, u)) in refx.iter().enumerate() {
-                let sep = refx.iter().enumerate().filter(|(j, _)| *j != k).map(|(_, (t2, u2))| (t2 - t).abs().min((u2 - u).abs())).fold(f64::INFINITY, f64::min);
-                let (da, db) = (deriv(&ca, t), deriv(&cb, u));
-                let transversal = cross(da, db).abs() >= 0.3 * norm(da) * norm(db) && norm(da) >= 0.2 * la && norm(db) >= 0.2 * lb;
-                if t > 0.1 && t < 0.9 && u > 0.1 && u < 0.9 && sep > 0.15 && transversal && refx.len() <= 4 {
-                    demanded += 1;
-                    let hit = r.iter().any(|(t2, u2)| (t2.f() - t).abs() <= 2e-2 && (u2.f() - u).abs() <= 2e-2);
-                    // witness class: the crossing is missed by this query but reported by a variant
-                    // of it – the two curves in the other order, or the same control points in the
-                    // other precision: an unstable miss of the clipper (a miss by all variants
-                    // stays `generic`)
-                    let near = |t2: f64, u2: f64| (t2 - t).abs() <= 2e-2 && (u2 - u).abs() <= 2e-2;
-                    let class = if !hit {
-                        let other = if S::BITS == 32 {
-                            let c = |c: &[V2; 4]| CubicBezierSegment { from: point(c[0].0, c[0].1), ctrl1: point(c[1].0, c[1].1), ctrl2: point(c[2].0, c[2].1), to: point(c[3].0, c[3].1) };
-                            c(&ca).cubic_intersections_t(&c(&cb)).iter().any(|(t2, u2)| near(*t2, *u2))
-                        } else {
-                            let c = |c: &[V2; 4]| CubicBezierSegment { from: point(c[0].0 as f32, c[0].1 as f32), ctrl1: point(c[1].0 as f32, c[1].1 as f32), ctrl2: point(c[2].0 as f32, c[2].1 as f32), to: point(c[3].0 as f32, c[3].1 as f32) };
-                            c(&ca).cubic_intersections_t(&c(&cb)).iter().any(|(t2, u2)| near(*t2 as f64, *u2 as f64))
-                        };
-                        let swapped = b.cubic_intersections_t(&a).iter().any(|(u2, t2)| near(t2.f(), u2.f()));
-                        if other || swapped {
-                            "clipper-unstable-miss"
-                        } else {
-                            "generic"
-                        }
-                    } else {
-                        "generic"
-                    };
-                    orc.check(hit, "cubic.cubic_intersections_t/complete", class, || format!("transversal crossing near t={:.4} u={:.4} not reported; got {:?}", t, u, r.iter().map(|x| (x.0.f(), x.1.f())).collect::<Vec<_>>()));
+            1 => {
+                // point-like curve just outside the tip of a cusp that is extremal in x and in y
+                // (neither the x- nor the y-solve finds it: the `maybe_add` chain), or near the curve
+                let c = [(0.0, 0.0), (20.0, 20.0), (0.0, 20.0), (20.0, 0.0)];
+                let ang = if lat { 0.7853981633974483 * rng.range(0, 7) as f64 + 0.7853981633974483 * 0.5 * rng.range(0, 1) as f64 } else { rng.uniform(0.0, 6.283) };
+                let o = jit(rng, 50.0);
+                let rot = |p: V2| add(o, (p.0 * ang.cos() - p.1 * ang.sin(), p.0 * ang.sin() + p.1 * ang.cos()));
+                let c = [rot(c[0]), rot(c[1]), rot(c[2]), rot(c[3])];
+                let tip = bez(&c, 0.5);
+                let mid = lerp(c[0], c[3], 0.5);
+                let dv = sub(tip, mid);
+                let dn = norm(dv).max(1e-12);
+                let k = rng.uniform(0.0, 2.0) * eps.sqrt();
+                let p = if rng.chance(2, 3) {
+                    add(tip, mul(dv, k / dn))
+                } else {
+                    let a2 = rng.uniform(0.0, 6.283);
+                    add(bez(&c, tpar(rng)), (k * a2.cos(), k * a2.sin()))
+                };
+                (cc_mk(c), cc_mk([p, p, p, p]), "point-extremal")
+            }
+            2 | 3 => {
+                // line-like curve (collinear control points, exactly or within epsilon) × curve
+                let t = tpar(rng);
+                let p = bez(&ca, t);
+                let d = if lat { (rng.range(-3, 3) as f64, rng.range(-3, 3) as f64) } else { jit(rng, 40.0) };
+                let s = if rng.chance(1, 3) { eps * rng.uniform(0.0, 3.0) } else { 0.0 };
+                let ks: [f64; 4] = match rng.below(4) {
+                    0 => [-1.0, -1.0 / 3.0, 1.0 / 3.0, 1.0],
+                    1 => [-1.0, 0.5, -0.5, 1.0],
+                    2 => [-2.0, 1.0, 2.0, 0.25],
+                    _ => [rng.uniform(-2.0, 0.0), rng.uniform(-2.0, 2.0), rng.uniform(-2.0, 2.0), rng.uniform(0.0, 2.0)],
+                };
+                let l = [add(add(p, mul(d, ks[0])), jit(rng, s)), add(add(p, mul(d, ks[1])), jit(rng, s)), add(add(p, mul(d, ks[2])), jit(rng, s)), add(add(p, mul(d, ks[3])), jit(rng, s))];
+                (a0, cc_mk(l), "line-like")
+            }
+            4 => {
+                // two line-like curves: crossing, parallel, collinear overlapping
+                let p = jit(rng, 50.0);
+                let d = if lat { (rng.range(-3, 3) as f64, rng.range(-3, 3) as f64) } else { jit(rng, 40.0) };
+                let e = match rng.below(3) { 0 => d, 1 => (-d.1, d.0), _ => jit(rng, 40.0) };
+                let q = match rng.below(3) { 0 => p, 1 => add(p, mul(d, 0.5)), _ => add(p, jit(rng, 10.0)) };
+                let fold = rng.chance(1, 3);
+                let k = |i: usize| if fold { [-1.0, 1.5, -1.5, 1.0][i] } else { [-1.0, -0.3, 0.4, 1.0][i] };
+                (cc_mk([add(p, mul(d, k(0))), add(p, mul(d, k(1))), add(p, mul(d, k(2))), add(p, mul(d, k(3)))]),
+                 cc_mk([add(q, mul(e, k(0))), add(q, mul(e, k(2))), add(q, mul(e, k(1))), add(q, mul(e, k(3)))]), "line-line")
+            }
+            5 => {
+                // overlapping: a sub-curve of A (exact or perturbed), A itself, A reversed, A shifted slightly
+                match rng.below(5) {
+                    0 => (a0, a0, "overlap-same"),
+                    1 => (a0, a0.flip(), "overlap-reversed"),
+                    2 => {
+                        let (t0, t1) = (tpar(rng), tpar(rng));
+                        (a0, a0.split_range(S::of(t0.min(t1))..S::of(t0.max(t1) + 0.01)), "overlap-subcurve")
+                    }
+                    3 => {
+                        let (t0, t1) = (tpar(rng), tpar(rng));
+                        let mut b = a0.split_range(S::of(t0.min(t1))..S::of(t0.max(t1) + 0.05));
+                        let o = jit(rng, 1e-3);
+                        b.ctrl1 = b.ctrl1 + vector(S::of(o.0), S::of(o.1));
+                        (a0, b, "overlap-subcurve-perturbed")
+                    }
+                    _ => {
+                        let sc = if rng.chance(1, 2) { 1e-3 } else { 0.5 };
+                        let o = jit(rng, sc);
+                        let v = vector(S::of(o.0), S::of(o.1));
+                        (a0, CubicBezierSegment { from: a0.from + v, ctrl1: a0.ctrl1 + v, ctrl2: a0.ctrl2 + v, to: a0.to + v }, "overlap-shifted")
+                    }
                 }
             }
-            let _ = (planted, demanded);
-            CaseOut { imp: out, orcl: orc.verdict }
-        })
+            6 => {
+                // loops: a self-intersecting cubic against a curve through / next to the loop
+                let o = jit(rng, 30.0);
+                let w = rng.uniform(20.0, 80.0);
+                let l = [add(o, (0.0, 0.0)), add(o, (w, w)), add(o, (-w * rng.uniform(0.3, 1.0), w)), add(o, (w * rng.uniform(0.0, 0.4), 0.0))];
+                let b = if rng.chance(1, 2) {
+                    let o2 = jit(rng, 10.0);
+                    [add(l[3], o2), add(l[2], o2), add(l[1], o2), add(l[0], (o2.0 + 5.0, o2.1))]
+                } else {
+                    let c = bez(&l, 0.5);
+                    let cb0 = cc_ctrl(&gen_cubic::<S>(Gen::Uniform, rng));
+                    let d = sub(c, bez(&cb0, 0.5));
+                    [add(cb0[0], d), add(cb0[1], d), add(cb0[2], d), add(cb0[3], d)]
+                };
+                (cc_mk(l), cc_mk(b), "loop")
+            }
+            7 => {
+                // tangency: B touches A at A(t) with the same tangent direction
+                let t = tpar(rng);
+                let h = 1e-4;
+                let (p, q) = (bez(&ca, t + h), bez(&ca, t - h));
+                let tv = sub(p, q);
+                let n = norm(tv).max(1e-12);
+                let tv = (tv.0 / n, tv.1 / n);
+                let nv = (-tv.1, tv.0);
+                let p = bez(&ca, t);
+                let (al, hh) = (rng.uniform(5.0, 60.0), rng.uniform(-40.0, 40.0));
+                let pt = |ka: f64, kh: f64| add(p, add(mul(tv, ka * al), mul(nv, kh * hh)));
+                (a0, cc_mk([pt(-1.0, 1.0), pt(-1.0 / 3.0, -1.0 / 3.0), pt(1.0 / 3.0, -1.0 / 3.0), pt(1.0, 1.0)]), "tangent")
+            }
+            8 => {
+                // shared endpoints and T-junctions
+                let cb0 = cc_ctrl(&gen_cubic::<S>(g, rng));
+                let (pa, pb) = match rng.below(6) {
+                    0 => (ca[3], 0), 1 => (ca[0], 0), 2 => (ca[3], 3), 3 => (ca[0], 3),
+                    4 => (bez(&ca, tpar(rng)), 0), _ => (bez(&ca, tpar(rng)), 3),
+                };
+                let d = sub(pa, cb0[pb]);
+                let mut b = [add(cb0[0], d), add(cb0[1], d), add(cb0[2], d), add(cb0[3], d)];
+                b[pb] = pa;
+                (a0, cc_mk(b), "shared-endpoint")
+            }
+            9 => {
+                // many crossings: two S-shaped cubics at right angles (9 crossings), jittered and
+                // mapped by a random similarity
+                let j = rng.uniform(0.0, 8.0);
+                let s = [add((-100.0, 0.0), jit(rng, j)), add((-20.0, 400.0), jit(rng, j)), add((20.0, -400.0), jit(rng, j)), add((100.0, 0.0), jit(rng, j))];
+                let r = [add((0.0, -100.0), jit(rng, j)), add((400.0, -20.0), jit(rng, j)), add((-400.0, 20.0), jit(rng, j)), add((0.0, 100.0), jit(rng, j))];
+                let (ang, sc, o) = if lat { (0.0, 0.25, (8.0, -4.0)) } else { (rng.uniform(0.0, 6.283), rng.uniform(0.05, 2.0), jit(rng, 100.0)) };
+                let m = |p: V2| add(o, (sc * (p.0 * ang.cos() - p.1 * ang.sin()), sc * (p.0 * ang.sin() + p.1 * ang.cos())));
+                (cc_mk([m(s[0]), m(s[1]), m(s[2]), m(s[3])]), cc_mk([m(r[0]), m(r[1]), m(r[2]), m(r[3])]), "many-crossings")
+            }
+            10 => {
+                // magnitudes: a planted pair scaled by a power of ten (tables of epsilon_for_point)
+                let cb0 = cc_ctrl(&gen_cubic::<S>(g, rng));
+                let tb = match rng.below(4) { 0 => 0.0, 1 => 1.0, _ => tpar(rng) };
+                let d = sub(bez(&ca, tpar(rng)), bez(&cb0, tb));
+                let k = 10f64.powi(rng.range(-4, 7) as i32);
+                let o = if rng.chance(1, 2) { (0.0, 0.0) } else { jit(rng, 1e3 * k) };
+                let f = |p: V2| add(mul(p, k), o);
+                (cc_mk([f(ca[0]), f(ca[1]), f(ca[2]), f(ca[3])]), cc_mk([f(add(cb0[0], d)), f(add(cb0[1], d)), f(add(cb0[2], d)), f(add(cb0[3], d))]), "scaled")
+            }
+            11 => {
+                // coordinates beyond the i32 / i64 range (`to_i32().unwrap()` of epsilon_for_point)
+                let k = if S::BITS == 32 { 3.0e9 } else { 1.0e19 };
+                let u = if S::BITS == 32 { 1.0e3 } else { 1.0e7 };
+                let o = if rng.chance(2, 3) { (k, k) } else { (k, 0.0) };
+                let cb0 = cc_ctrl(&gen_cubic::<S>(g, rng));
+                let d = sub(bez(&ca, 0.5), bez(&cb0, 0.5));
+                let f = |p: V2| add(mul(p, u), o);
+                (cc_mk([f(ca[0]), f(ca[1]), f(ca[2]), f(ca[3])]), cc_mk([f(add(cb0[0], d)), f(add(cb0[1], d)), f(add(cb0[2], d)), f(add(cb0[3], d))]), "beyond-int")
+            }
+            12 => {
+                // closed second curve (from == to: the "no baseline" split branch) / degenerate pairs
+                if rng.chance(1, 2) {
+                    let cb0 = cc_ctrl(&gen_cubic::<S>(g, rng));
+                    let d = sub(bez(&ca, tpar(rng)), bez(&[cb0[0], cb0[1], cb0[2], cb0[0]], 0.5));
+                    (a0, cc_mk([add(cb0[0], d), add(cb0[1], d), add(cb0[2], d), add(cb0[0], d)]), "closed")
+                } else {
+                    (gen_cubic::<S>(Gen::Degenerate, rng), gen_cubic::<S>(Gen::Degenerate, rng), "degenerate")
+                }
+            }
+            _ => {
+                // nearly coincident arcs: call-count / recursion budget
+                let sc = if S::BITS == 32 { 1e-2 } else { 1e-6 };
+                let o = jit(rng, sc);
+                let mut cb0 = ca;
+                cb0[1] = add(cb0[1], o);
+                cb0[2] = add(cb0[2], jit(rng, 1e-2));
+                (a0, cc_mk(cb0), "near-coincident")
+            }
+        };
+        if rng.chance(1, 2) {
+            std::mem::swap(&mut a, &mut b);
+        }
+        let mut args = Out::new();
+        args.p(a.from).p(a.ctrl1).p(a.ctrl2).p(a.to).p(b.from).p(b.ctrl1).p(b.ctrl2).p(b.to);
+        let tag = format!("cubiccubic {} special {} {}", S::BITS, kind, cc_branch(&a, &b));
+        (args, tag, move || cubiccubic_body(a, b))
     });
 }
 
@@ -1366,6 +1708,8 @@ fn main() {
         tri_case::<f64>(&mut ctx);
         cubiccubic_case::<f32>(&mut ctx);
         cubiccubic_case::<f64>(&mut ctx);
+        cubiccubic_special_case::<f32>(&mut ctx);
+        cubiccubic_special_case::<f64>(&mut ctx);
     }
     ctx.finish();
 }
